@@ -225,6 +225,10 @@ func c15(r *core.Run) {
 						}
 					}
 				}
+				// ... or the group member read directly (the accessor inlined)
+				if f, ok := core.LoadedField(g); ok && f.Struct == "resource" && f.Name == resourceGroupField(g) && strings.Contains(fieldChain(g, 0), "queryEvent.r") {
+					gOK = true
+				}
 				clOK := false
 				if mc, ok := c.Common().Args[2].(*ssa.MakeClosure); ok {
 					if cl, ok := mc.Fn.(*ssa.Function); ok {
@@ -540,13 +544,7 @@ func c15(r *core.Run) {
 					if !ok {
 						// the caller is itself a private helper that was handed the channel: follow the
 						// parameters up to the value's origin and look for the store of that value
-						one := func(v ssa.Value) ssa.Value {
-							vs := paramArgs(p, v, 0)
-							if len(vs) != 1 {
-								return nil
-							}
-							return vs[0]
-						}
+						one := func(v ssa.Value) ssa.Value { return originOf(p, v) }
 						if root := one(arg); root != nil && root != arg {
 							for _, f2 := range p.FuncsOfPkg("") {
 								for _, b := range f2.Blocks {
